@@ -1457,3 +1457,193 @@ def m_datastore_misc(seed):
     ents = [fan, *clients, origin, soft, l1, l2, tiers, *replicas, repl, db]
     sim = Simulation(sources=[src], entities=ents, end_time=Instant.from_seconds(2.0))
     return Model(sim, [src, *ents])
+
+
+# ===========================================================================
+# 15. fault injection + the 'shared arguments' assembly style
+# ===========================================================================
+# A user may keep plain-data configuration at module level and pass the SAME objects to every
+# build of a model: lists of node names, config dicts, frozen fault / profile dataclasses,
+# stateless latency objects.  These are immutable by contract (nobody expects a library call to
+# write into the list it was handed).  Entities, RNG-carrying distributions, queue / eviction
+# policies and FaultSchedule objects are stateful by design and are built freshly every time.
+# With these constants the "rerun" and "prior" dimensions also catch a component that mutates
+# caller-owned arguments in place.
+SHARED_NODES = ["node-a", "node-b", "node-c", "node-d"]
+SHARED_GROUP_A = ["node-a", "node-b"]
+SHARED_GROUP_B = ["node-c", "node-d"]
+SHARED_CUSTOMERS = [f"customer-{i:03d}" for i in range(30)]
+SHARED_REGIONS = ["us-east", "us-west", "eu", "ap"]
+SHARED_STATIC_FIELDS = {"tenant": "acme", "tier": "gold", "tags": ["a", "b"]}
+SHARED_KEYS_TO_WARM = [f"sku-{i}" for i in range(8)]
+SHARED_RANGE_BOUNDARIES = ["sku-3", "sku-6"]
+SHARED_CHAIN_NAMES = ["chain-0", "chain-1", "chain-2"]
+SHARED_DEPENDS_ON = ["extract"]
+SHARED_TRAIT_MEANS = {"openness": 0.6, "conscientiousness": 0.5, "extraversion": 0.5, "agreeableness": 0.5,
+                      "neuroticism": 0.4}
+_SHARED_LAZY: dict = {}
+
+
+def _shared_objects():
+    """Library-typed shared configuration objects (created once per interpreter, on first use)."""
+    if not _SHARED_LAZY:
+        from happysimulator import ConstantRateProfile, SpikeProfile
+        from happysimulator.components.client.retry import ExponentialBackoff, FixedRetry
+        from happysimulator.faults import (CrashNode, InjectLatency, InjectPacketLoss, NetworkPartition, PauseNode,
+                                           RandomPartition, ReduceCapacity)
+        from happysimulator.components.infrastructure.dns_resolver import DNSRecord
+        _SHARED_LAZY.update({
+            "faults": (
+                RandomPartition(nodes=SHARED_NODES, mtbf=0.15, mttr=0.05, seed=11, network_name="net"),
+                NetworkPartition(group_a=SHARED_GROUP_A, group_b=SHARED_GROUP_B, start=0.9, end=1.0,
+                                 network_name="net"),
+                CrashNode("worker-0", at=0.3, restart_at=0.5),
+                PauseNode("worker-1", start=0.4, end=0.6),
+                InjectLatency("node-a", "node-b", extra_ms=20.0, start=0.2, end=0.7, network_name="net"),
+                InjectPacketLoss("node-c", "node-d", loss_rate=0.5, start=0.1, end=0.8, network_name="net"),
+                ReduceCapacity("pool", factor=0.5, start=0.25, end=0.65),
+            ),
+            "latency_const": ConstantLatency(0.004),
+            "latency_exp": ExponentialLatency(0.01),
+            "profile_const": ConstantRateProfile(rate=80.0),
+            "profile_spike": SpikeProfile(baseline_rate=40.0, spike_rate=40.0, warmup_s=10.0, spike_duration_s=1.0),
+            "retry_backoff": ExponentialBackoff(max_attempts=3, initial_delay=0.01, max_delay=0.05, jitter=0.01),
+            "retry_fixed": FixedRetry(max_attempts=2, delay=0.01),
+            "dns_records": {f"svc-{i}.example.com": DNSRecord(hostname=f"svc-{i}.example.com",
+                                                              ip_address=f"10.0.0.{i}", ttl_s=0.2) for i in range(4)},
+        })
+    return _SHARED_LAZY
+
+
+@model("faults-schedule")
+def m_faults(seed):
+    """Every fault type of happysimulator.faults through one FaultSchedule (built freshly; the fault
+    objects and the node-name lists they carry are module-level constants shared by every build):
+    seeded RandomPartition, NetworkPartition, CrashNode / PauseNode on generator workers,
+    InjectLatency / InjectPacketLoss on links (loss drawn from the module RNG), ReduceCapacity on a
+    Resource; plus a BreakdownScheduler-style stochastic fault on a server."""
+    from happysimulator import BreakdownScheduler, FaultSchedule, Network, NetworkLink, Resource, Server
+    sh = _shared_objects()
+    net = Network(name="net")
+    hosts = []
+
+    def host_fn(self, event):
+        if event.event_type == "tick":
+            peer = hosts[(hosts.index(self) + 1 + self.calls % 3) % 4]
+            out = [net.send(self, peer, "ping", payload={"size": 100})]
+            if self.now.to_seconds() < 1.1:
+                out.append(Event(time=self.now + 0.03, event_type="tick", target=self))
+            return out
+        if event.event_type == "ping":
+            peer = next(h for h in hosts if h.name == event.context["metadata"]["source"])
+            return [net.send(self, peer, "pong")]
+        return None
+
+    hosts.extend(Script(n, host_fn) for n in ("node-a", "node-b", "node-c", "node-d"))  # own copy of the names
+    _mesh(net, hosts, lambda nm: NetworkLink(name=nm, latency=sh["latency_const"], jitter=sh["latency_exp"]))
+    pool = Resource("pool", capacity=4)
+    sink = Sink("sink")
+    machine = Server("machine", concurrency=2, service_time=sh["latency_exp"], downstream=sink)
+    breaker = BreakdownScheduler("breakdowns", target=machine, mean_time_to_failure=0.2, mean_repair_time=0.03)
+
+    def work(self, event):
+        grant = yield pool.acquire(2)
+        yield 0.03
+        grant.release()
+        yield 0.01
+        return [Event(time=self.now, event_type="Request", target=machine, context={"created_at": self.now})]
+
+    workers = [Script(f"worker-{i}", work) for i in range(3)]
+    disp = Script("dispatch", lambda self, ev: [self.forward(ev, workers[self.calls % 3])])
+    src = Source.poisson(rate=70.0, target=disp, event_type="job", stop_after=1.0, name="src")
+    schedule = FaultSchedule("faults")
+    for f in sh["faults"]:
+        schedule.add(f)
+    ents = [net, *hosts, pool, machine, breaker, sink, disp, *workers]
+    sim = Simulation(sources=[src], entities=ents, end_time=Instant.from_seconds(1.5), fault_schedule=schedule)
+    for i, h in enumerate(hosts):
+        sim.schedule(at(0.005 * (i + 1), h, "tick"))
+    ev0 = breaker.start_event()
+    sim.schedule(ev0 if isinstance(ev0, (Event, list)) else [])
+    return Model(sim, [src, schedule, *ents],
+                 extra=lambda: {"traffic": net.traffic_matrix(), "calls": [h.calls for h in hosts],
+                                "pool": (pool.capacity, pool.available)})
+
+
+@model("shared-arguments")
+def m_shared_arguments(seed):
+    """Components across families fed with the module-level shared configuration objects: value
+    lists for distributions, static-field dict, profile / latency / retry-policy objects, DNS record
+    dict, key lists, sharding boundaries, chain names, job dependency list, trait means."""
+    from happysimulator import (ConstantArrivalTimeProvider, DistributedFieldProvider, DNSResolver, JobDefinition,
+                                JobScheduler, Network, NormalTraitDistribution, PoissonArrivalTimeProvider, Server,
+                                TopKCollector, UniformDistribution, ZipfDistribution)
+    from happysimulator.components.client import Client
+    from happysimulator.components.datastore import (CachedStore, CacheWarmer, KVStore, LRUEviction, ShardedStore)
+    from happysimulator.components.datastore.sharded_store import RangeSharding
+    from happysimulator.components.replication.chain_replication import build_chain
+    sh = _shared_objects()
+    r = random.Random(seed)
+    sink = Sink("sink")
+    topk = TopKCollector("topk", k=5, value_extractor=lambda e: e.context.get("customer_id"), seed=seed)
+    srv = Server("server", concurrency=2, service_time=sh["latency_exp"], downstream=sink)
+    dns = DNSResolver("dns", cache_capacity=2, records=sh["dns_records"])
+    shards = [KVStore(f"shard-{i}", read_latency=0.001 * (i + 1), write_latency=0.002) for i in range(3)]
+    for i, k in enumerate(SHARED_KEYS_TO_WARM):
+        shards[RangeSharding(SHARED_RANGE_BOUNDARIES).get_shard(k, 3)].put_sync(k, i)
+    sharded = ShardedStore("sharded", shards=shards, sharding_strategy=RangeSharding(boundaries=SHARED_RANGE_BOUNDARIES))
+    cache = CachedStore("cache", backing_store=sharded, cache_capacity=5, eviction_policy=LRUEviction())
+    warmer = CacheWarmer("warmer", cache=cache, keys_to_warm=SHARED_KEYS_TO_WARM, warmup_rate=200.0)
+    net = Network(name="chain-net")
+    chain = build_chain(SHARED_CHAIN_NAMES, net, store_factory=lambda n: KVStore(n + "-store", write_latency=0.001,
+                                                                                 read_latency=0.001))
+    for i in range(2):
+        net.add_bidirectional_link(chain[i], chain[i + 1], _random_link(f"clink-{i}"))
+    net.add_bidirectional_link(chain[0], chain[-1], _random_link("clink-ht"))
+    writer = Script("writer", _writer(lambda s: chain[0], seed, universe=5))
+    flaky = Script("flaky", lambda self, ev: (yield (0.2 if r.random() < 0.3 else 0.005)))
+    clients = [Client("client-backoff", target=flaky, timeout=0.03, retry_policy=sh["retry_backoff"]),
+               Client("client-fixed", target=flaky, timeout=0.03, retry_policy=sh["retry_fixed"])]
+    etl = [Script(f"{n}-job", lambda self, ev: (yield 0.01)) for n in ("extract", "transform")]
+    sched = JobScheduler("cron", tick_interval=0.1)
+    sched.add_job(JobDefinition(name="extract", target=etl[0], event_type="Extract", interval=0.2, priority=2))
+    sched.add_job(JobDefinition(name="transform", target=etl[1], event_type="Transform", interval=0.2, priority=1,
+                                depends_on=SHARED_DEPENDS_ON))
+    traits = NormalTraitDistribution(means=SHARED_TRAIT_MEANS)
+    trait_rng = random.Random(seed)
+    samples = []
+
+    def fan(self, event):
+        out = [self.forward(event, topk), self.forward(event, srv)]
+        if self.calls % 4 == 0:
+            out.append(Event(time=self.now, event_type="NewWrite", target=writer))
+            for c in clients:
+                ev = c.send_request(payload={"n": self.calls})
+                out.append(ev) if isinstance(ev, Event) else out.extend(ev or [])
+        return out
+
+    def lookups(self, event):
+        yield from dns.resolve(r.choice(sorted(sh["dns_records"])))
+        v = yield from cache.get(r.choice(SHARED_KEYS_TO_WARM))
+        samples.append(v)
+        if len(samples) % 5 == 0:
+            samples.append(repr(traits.sample(trait_rng))[:80] if hasattr(traits, "sample") else None)
+
+    fanout, looker = Script("fan", fan), Script("lookups", lookups)
+    provider = DistributedFieldProvider(
+        target=fanout, event_type="Request",
+        field_distributions={"customer_id": ZipfDistribution(SHARED_CUSTOMERS, s=1.1, seed=seed),
+                             "region": UniformDistribution(SHARED_REGIONS, seed=seed + 1)},
+        static_fields=SHARED_STATIC_FIELDS, stop_after=Instant.from_seconds(0.8))
+    srcs = [Source("src", event_provider=provider,
+                   arrival_time_provider=PoissonArrivalTimeProvider(sh["profile_const"], start_time=Instant.Epoch)),
+            Source.with_profile(sh["profile_spike"], target=looker, event_type="lookup", poisson=False,
+                                name="lookup-src", stop_after=0.2)]
+    ents = [fanout, looker, topk, srv, sink, dns, *shards, sharded, cache, warmer, net, *chain,
+            *[n.store for n in chain], writer, flaky, *clients, sched, *etl]
+    sim = Simulation(sources=srcs, entities=ents, end_time=Instant.from_seconds(0.4))
+    sim.schedule(warmer.start_warming())
+    ev0 = sched.start()
+    sim.schedule(ev0 if isinstance(ev0, (Event, list)) else [])
+    return Model(sim, [*srcs, *ents],
+                 extra=lambda: {"top": [(f.item, f.count) for f in topk.top()], "samples": samples})
